@@ -1,0 +1,27 @@
+//go:build verif
+
+// Package verifhook provides interleaving points for the external verification
+// harness. With the build tag "verif" a handler can be installed that is called
+// at every point; without the tag At is an empty function.
+package verifhook
+
+import "sync/atomic"
+
+type handlerFunc func(point string)
+
+var handler atomic.Value
+
+// Enabled reports whether hooks are compiled in.
+const Enabled = true
+
+// Set installs fn as the handler for all points (nil removes it).
+func Set(fn func(point string)) {
+	handler.Store(handlerFunc(fn))
+}
+
+// At calls the installed handler, if any.
+func At(point string) {
+	if h, ok := handler.Load().(handlerFunc); ok && h != nil {
+		h(point)
+	}
+}
